@@ -24,7 +24,7 @@ from hsim.worlds.http import FlowRecord, HttpWorld
 
 PROPERTY = "C15"
 CHUNK = {"quick": 10, "thorough": 24}
-PROBES = ["preempt_after_release", "closed_session_collected", "session_closed_with_flows_parked", "released_after_its_session_closed",
+PROBES = ["waiter_took_response", "waiter_abandoned_while_subscribed", "preempt_after_release", "closed_session_collected", "session_closed_with_flows_parked", "released_after_its_session_closed",
           "response_of_a_closed_session_handled", "two_sessions_in_one_simulator", "take_resume_later", "take_never_resumed", "raise_in_request_hook", "raise_in_response_hook",
           "raise_in_subscriber", "raise_in_logger", "malformed_seed_request", "malformed_eq_request",
           "malformed_seed_response", "malformed_eq_response", "malformed_uploader_response", "malformed_login_response",
@@ -87,6 +87,16 @@ def gen_plan(rng: random.Random, tier: str) -> dict:
               "logger_raises": rng.random() < 0.3, "later": rng.choice([0.0, 0.003, 0.05]),
               "origin_delay": rng.choice([0.0, 0.0, 0.01, 0.05])}
         steps.append(st)
+    if rng.random() < 0.3:
+        # addon coroutines that wait for a particular cap's response (take by default): some wake up and own the flow,
+        # some are abandoned first (an outer timeout cancels the await, the subscription itself has no timeout)
+        for _w in range(rng.randint(1, 3)):
+            tw = round(rng.uniform(0.0, max(0.02, t)), 4)
+            s_w = rng.randrange(n_sessions)
+            steps.append({"at": tw, "op": "waiter", "s": s_w, "r": rng.randrange(cfg["n_regions"][s_w]),
+                          "level": rng.choice(["session", "region"]), "outer": rng.choice([None, 0.0, 0.004, 0.03, 0.2]),
+                          "resume_after": rng.choice([0.0, 0.003, 0.05])})
+        steps.sort(key=lambda x: x["at"])
     if rng.random() < 0.2:
         # a session goes away (viewer logged out / crashed) shortly after its last request, while flows of it may
         # still be parked with an addon or on their way; nothing of that session is requested afterwards
@@ -97,7 +107,7 @@ def gen_plan(rng: random.Random, tier: str) -> dict:
             t_close = round(steps[cut]["at"] + rng.choice([0.0005, 0.002, 0.02, 0.08]), 4)
             steps = [x for i, x in enumerate(steps) if not (x["s"] == s and i > cut)]
             for x in steps:
-                if x["s"] == s and rng.random() < 0.5:
+                if x["op"] == "req" and x["s"] == s and rng.random() < 0.5:
                     x["later"] = rng.choice([0.05, 0.15, 0.3])
             steps.append({"at": t_close, "op": "close", "s": s})
             steps.sort(key=lambda x: x["at"])
@@ -529,12 +539,45 @@ def run_plan(plan: dict) -> RunResult:
             if wr() is None:
                 res.probe("closed_session_collected")
 
+        def op_waiter(st):
+            sess_ = sessions[st["s"]]
+            if sess_ is None:
+                return
+            handler = sess_.http_message_handler if st["level"] == "session" else sess_.regions[st["r"]].http_message_handler
+            res.fault("cap_response_waiter")
+
+            async def _w():
+                fut = handler.wait_for(("GetMetadata",))
+                try:
+                    flow = await (asyncio.wait_for(fut, st["outer"]) if st["outer"] is not None else fut)
+                except asyncio.TimeoutError:
+                    res.probe("waiter_abandoned_while_subscribed")
+                    return
+                # the handler took the flow on our behalf: we own it now and give it back ourselves
+                tag = tag_of(flow)
+                key = (flow.id, "response")
+                takes[key] = {"resumed_at": None, "never": False}
+                actions.append({"kind": "take", "tag": tag, "event": "response", "how": "waiter"})
+                res.probe("waiter_took_response")
+                if st["resume_after"]:
+                    await asyncio.sleep(st["resume_after"])
+                try:
+                    flow.resume()
+                    takes[key]["resumed_at"] = loop.time()
+                    takes[key]["resumed_pump"] = world.in_pump
+                except AssertionError:
+                    pass
+            loop.create_task(_w(), context=contextvars.Context())
+
         for i, st in enumerate(plan["steps"]):
             def _run(i=i, st=st):
                 env.tr("step", i, st.get("kind", st["op"]))
                 if st["op"] == "close":
                     env.ab("close")
                     return op_close(st)
+                if st["op"] == "waiter":
+                    env.ab("waiter", st["level"], st["outer"])
+                    return op_waiter(st)
                 env.ab("req", st["kind"], st["status"])
                 op_req(st)
             loop.call_at(st["at"], _run)
